@@ -1313,7 +1313,9 @@ static int cfg_parse_internal(cfg_t *cfg, int level, int force_state, cfg_opt_t 
 		}
 
 		if (tok == EOF) {
-			if (state != 0) {
+			/* also an error inside an unclosed section, but not when
+			 * parsing a default value (force_opt), which ends at EOF */
+			if (state != 0 || (level > 0 && !force_opt)) {
 				cfg_error(cfg, _("premature end of file"));
 				goto error;
 			}
